@@ -143,8 +143,9 @@ CHECKS = {
     "C15": (
         "exploration",
         "exhaustive itertools.product over single-member archives (component sequences to depth 4/5 x separators x absolute/relative x "
-        "file/dir entry) + Hypothesis multi-member archives x destination spellings; oracle = file-system snapshot diff of a sandbox "
-        "root + independent lexical escape predicate",
+        "file/dir entry) + Hypothesis multi-member archives x destination spellings x entry point (nuwiki.extractall, or wiki.make_wiki on a "
+        "nuwiki / multi-nuwiki zip) x optional earlier extraction into a sibling directory in the same process; oracle = file-system snapshot "
+        "diff of a sandbox root + independent lexical escape predicate",
         "All single-member archives to depth 4 (thorough 5) over the stated component alphabet are extracted for real into a scratch "
         "sandbox and the whole sandbox is diffed (exhaustive for that sub-space); multi-member archives and destination spellings are sampled.",
         "POSIX path semantics ('\\' is not a separator on this platform); no symlink members; absolute names point into the scratch root only.",
@@ -203,8 +204,9 @@ CHECKS = {
     ),
     "C20": (
         "fault_enumeration",
-        "strace-injected SIGKILL and ENOSPC/EIO at every (syscall name, K) inside each of 6 producers x 2 pre-states (calibrated per run by "
-        "marker stat() calls); oracle: the final path is absent or parses completely",
+        "strace-injected SIGKILL and ENOSPC/EIO (once, and persistently for the write-like calls) at every (syscall name, K) inside each of 6 "
+        "producers x 2 pre-states x 2 layouts (output next to TMPDIR / on another file system), calibrated per run by marker stat() calls; "
+        "oracle: the final path is absent or parses completely, success is reported only with a complete file",
         "The file system only changes at system calls, so killing the producer on entry to its K-th openat/write/close/rename/unlink/mkdir/... "
         "enumerates its crash states for the given input; the two render producers are strided in the quick tier and complete in the "
         "thorough tier. Each point is one generated input (producer, pre-state, fault, syscall, K) with its own replay file.",
